@@ -16,7 +16,9 @@ def run(ctx: Ctx):
                 "offset from the raw maps and the segment's peak, every position score from the parameters the "
                 "harness passed, the confidence as the sum, checks that no label inside a segment's span is "
                 "unaccounted and none is counted twice. non-trivial = distinct input whose row has >= 1 unpaired "
-                "label inside a segment or >= 2 segments")
+                "label inside a segment or >= 2 segments. [wiring] random subsets of the 17 scoring / seeding options with "
+                "sentinel values through the real Args.parse and WorkflowCoordinatorFactory.create: every given value "
+                "must be the one found in the component field it feeds (Wiring.tla)")
     ctx.assumptions = ["scores are multiplied by the denominator of distancePenaltyMultiplier and compared exactly",
                        "a label 'inside a segment's span' = strictly between the first and last position of the "
                        "segment in absolute position"]
@@ -54,6 +56,10 @@ def run(ctx: Ctx):
         for tid, (failed, drift) in sorted(v2.items()):
             if failed:
                 ctx.violation(slines[tid], ["C04:" + c for c in failed], "", what=f"{slines[tid]['tag']} conf={slines[tid]['conf']} written={slines[tid]['written']}")
+    # ---- which option reaches which component (Wiring.tla)
+    import random
+    from props import wiring
+    wiring.explore(ctx, 60 if quick else 1500, random.Random(ctx.seed * 17 + 4))
     multi = [x for x in records if alignlib.multi_segment(x)]
     for s in multi[:2] + records[:1]:
         ctx.sample({"in": s["in"], "conf": s["obs"]["conf"],
